@@ -100,8 +100,12 @@ func (n *node[K, V]) search(t *BTree[K, V], key K, height int) (V, bool) {
 
 // Put inserts a new value into the B-tree.
 func (t *BTree[K, V]) Put(key K, val V) {
+	_, found := t.Get(key)
 	u := t.root.insert(t, key, val, t.height, false)
-	t.n++
+	// Overwriting an existing key does not add an element.
+	if !found {
+		t.n++
+	}
 	if u == nil {
 		return
 	}
